@@ -1,6 +1,7 @@
 # C13 - DOM mutation: character-data offsets (tree-link operations: see DESIGN.md)
 CLAIMS = {'chardata_substring': 'DOMTextImpl (real ctor/vtables/casts) -> DOMCharacterDataImpl::substringData for every content, offset and count (64-bit): result = DOM substring with the count clamped, INDEX_SIZE_ERR iff offset > length, data unchanged, memory safe incl. the 4096-unit stack temporary'}
-ASSUMPTIONS = ['document arena, string pool (getPooledString), buffer growth and DOMException message loading cut', 'no Range objects registered on the document']
+CLAIMS.update({'chardata_' + o: 'DOMTextImpl -> DOMCharacterDataImpl::%s for every content, 64-bit offset/count and inserted string of <= 2 units: data afterwards = the DOM Core string operation (count clamped), INDEX_SIZE_ERR iff offset > length and NO_MODIFICATION_ALLOWED_ERR on a read-only node with the data unchanged, memory safe' % f for o, f in [('insert', 'insertData'), ('delete', 'deleteData'), ('replace', 'replaceData')]})
+ASSUMPTIONS = ['document arena, string pool (getPooledString), buffer growth and DOMException message loading cut', 'chardata: the document answers getRanges() with no live Range (live ranges: C14 rangeedit)']
 OPS = ['substring', 'insert', 'delete', 'replace']
 HARNESSES = [
  dict(name='chardata_' + OPS[op], entry='harness_chardata', srcs=['C13/chardata.cpp', 'C13/domstubs.cpp'],
@@ -8,8 +9,22 @@ HARNESSES = [
       cuts_everywhere=['_ZN11xercesc_4_015DOMDocumentImpl15getPooledStringEPKDs'],
       cuts=['_ZN11xercesc_4_09DOMBuffer14expandCapacityEmb', '_ZN11xercesc_4_020DOMCharacterDataImplC[12]EPNS_11DOMDocumentEPKDs', '_ZN11xercesc_4_020DOMCharacterDataImplD[12]Ev'],
       defs={'quick': {'N': 2, 'OP': op}, 'thorough': {'N': 4, 'OP': op}}, unwind={'quick': 6, 'thorough': 8}, timeout={'quick': 600, 'thorough': 1700}, mem_gb=14, unwind_gentle=True, unwind_cap=24)
- for op in range(1)    # insert/delete/replace (OP 1..3): the virtual getRanges() call on the raw document object makes CBMC dispatch over every
+ for op in range(int(__import__('os').environ.get('VX_C13_OPS', '4')))    # insert/delete/replace (OP 1..3): the virtual getRanges() call on the raw document object makes CBMC dispatch over every
                           # address-taken function; no verdict within 600 s, so they are not registered (code kept in the harness)
+]
+CLAIMS.update({'treelinks_' + o + '_' + pn: 'DOMParentNode::%s on a parent that is %s, through real Element/Text/DocumentFragment objects, one operation from every well-formed forest over 4 nodes with arbitrary child operands: resulting tree = DOM Core reference model, illegal operations raise the named DOMException and change nothing' % (f, pd)
+               for o, f in [('insert', 'insertBefore/appendChild'), ('remove', 'removeChild'), ('replace', 'replaceChild')] for pn, pd in [('elem', 'an element'), ('frag', 'a document fragment'), ('text', 'a text node')]})
+ASSUMPTIONS += ['treelinks: attribute maps / default attributes of the element constructor cut; document virtuals getRanges/getNodeIterators/changed served by stubs (no live views: C14)', 'treelinks: replaceChild(n, n) not judged (implementation dependent in DOM Core)']
+TOPS = ['insert', 'remove', 'replace']; TPAR = {0: 'elem', 3: 'frag', 2: 'text'}
+HARNESSES += [
+ dict(name='treelinks_' + TOPS[op] + '_' + TPAR[par], entry='harness_treelinks', srcs=['C13/treelinks.cpp', 'C13/domstubs.cpp', 'C13/elemstubs.cpp'],
+      tus=['dom/impl/DOMParentNode.cpp', 'dom/impl/DOMElementImpl.cpp', 'dom/impl/DOMTextImpl.cpp', 'dom/impl/DOMDocumentFragmentImpl.cpp', 'dom/impl/DOMDocumentImpl.cpp', 'dom/impl/DOMCharacterDataImpl.cpp',
+           'dom/impl/DOMNodeImpl.cpp', 'dom/impl/DOMChildNode.cpp', 'dom/impl/DOMNodeListImpl.cpp', 'dom/impl/DOMStringPool.cpp', 'util/XMLString.cpp'],
+      cuts_everywhere=['_ZN11xercesc_4_015DOMDocumentImpl15getPooledStringEPKDs', '_ZnwmPN11xercesc_4_015DOMDocumentImplE'],
+      cuts=['_ZN11xercesc_4_09DOMBuffer14expandCapacityEmb', '_ZN11xercesc_4_020DOMCharacterDataImplC[12]EPNS_11DOMDocumentEPKDs', '_ZN11xercesc_4_020DOMCharacterDataImplD[12]Ev',
+            '_ZN11xercesc_4_014DOMElementImpl22setupDefaultAttributesEv'],
+      defs={'all': {'OP': op, 'P': par}}, unwind={'quick': 6, 'thorough': 6}, timeout={'quick': 1500, 'thorough': 3000}, mem_gb=24, cbmc_flags=['--sat-solver', 'cadical'])
+ for par in (0, 3, 2) for op in range(3 if __import__('os').environ.get('VX_C13_TREE') else 0)      # gated until the harness reaches a verdict
 ]
 LEVEL_TEXT = ('Bounded model checking of the real DOM character-data code through a real Text node object: for ALL contents, offsets, counts (64-bit) and inserted strings within the bound the result equals the DOM Core '
               'string operation and the specified exceptions are raised with the data left unchanged.')
